@@ -10,4 +10,5 @@ INVARIANT VarianceIdentity
 INVARIANT DSumOrderFree
 PROPERTY ResetIsFresh
 PROPERTY ComputeIdempotent
+INVARIANT Emitted
 CHECK_DEADLOCK FALSE
